@@ -9,7 +9,7 @@ for k in 1 2 3 4 5 6; do
   git -C $W checkout -q -- . 
   git -C $W apply "$P" || { echo "$ID/$k: patch does not apply"; continue; }
   out=""
-  for p in C01 C02 C03 C04 C05 C06 C07 C08 C09 C10 C13 C16 C17 C18 C19 C20; do
+  for p in C01 C02 C03 C04 C05 C06 C07 C08 C09 C10 C13 C15 C16 C17 C18 C19 C20; do
     r=$(VERIF_REPO=$W VERIF_EVIDENCE_DIR=/tmp/try_ev_$ID /verif/check $p --tier quick 2>&1 | grep -E "^  R-|checker error|Traceback" | cut -c1-330)
     [ -n "$r" ] && out="$out
 [$p] $r"
